@@ -346,13 +346,13 @@ pub fn check(ctx: &mut Ctx) -> i32 {
         EXIT_VIOLATION
     };
     if ctx.quick() {
-        if let Some(f) = explore(ctx, &acc, "grid-sample", "stream", &grid_case_strategy, 1500, ctx.workers, run_case) {
+        if let Some(f) = explore(ctx, &acc, "grid-sample", "stream", &grid_case_strategy, 8000, ctx.workers, run_case) {
             return fail(ctx, &acc, &f.case, &f.fail);
         }
     } else if let Some((case, fi)) = grid_exhaustive(ctx, &acc) {
         return fail(ctx, &acc, &case, &fi);
     }
-    let n = ctx.by(2500, 100_000);
+    let n = ctx.by(12_000, 100_000);
     if let Some(f) = explore(ctx, &acc, "mixed-streams", "stream", &mixed_strategy, n, ctx.workers, run_case) {
         return fail(ctx, &acc, &f.case, &f.fail);
     }
